@@ -696,3 +696,12 @@ Qed.
 Lemma object_settings_lost : forall r,
   o_calls (orun false [OEnter; OCallOk; OCallFail; OCallOk] (new_obj r)) = [CFull r; CBare (r_njobs r)].
 Proof. reflexivity. Qed.
+
+(* which abort_everything a backend class runs: LokyBackend has its own, every other built-in one PoolManagerMixin's
+   (both booleans regenerated from the source) *)
+Definition abort_passes (k : ckind) : bool :=
+  match k with BLoky => loky_abort_passes_kwargs | _ => pool_abort_passes_kwargs end.
+
+Lemma object_settings_constant_all : forall k ops r,
+  abort_passes k = true /\ Forall (fun c => c = CFull r) (o_calls (orun (abort_passes k) ops (new_obj r))).
+Proof. intros k ops r. assert (abort_passes k = true) as E by (destruct k; reflexivity). rewrite E. split; [reflexivity|apply object_settings_constant]. Qed.
